@@ -328,9 +328,24 @@ fn label_count(instructions: &[SymbolicByteCode]) -> usize {
 }
 
 fn apply_stack_effects(fun_builder: &mut FunBuilder, instructions: &mut [SymbolicByteCode]) {
+  // the stack depth with which each label is reached by the jumps seen so far
+  let mut label_slots: Vec<Option<i32>> = vec![None; label_count(instructions)];
   let mut slots: i32 = 1;
 
+  // false directly after an unconditional transfer, the code that follows
+  // in the list is then only reached through a label
+  let mut falls_through = true;
+
   for instruction in instructions {
+    if let SymbolicByteCode::Label(label) = instruction {
+      if !falls_through {
+        if let Some(Some(depth)) = label_slots.get(label.val() as usize) {
+          slots = *depth;
+        }
+      }
+      falls_through = true;
+    }
+
     if let SymbolicByteCode::PushHandler((_, label)) = instruction {
       // TODO handle to many slots
       *instruction = SymbolicByteCode::PushHandler((slots as u16, *label))
@@ -339,6 +354,34 @@ fn apply_stack_effects(fun_builder: &mut FunBuilder, instructions: &mut [Symboli
     slots += instruction.stack_effect();
     debug_assert!(slots >= 0);
     fun_builder.update_max_slots(slots);
+
+    // the depth on the taken edge of each forward jump
+    let target = match instruction {
+      SymbolicByteCode::Jump(label)
+      | SymbolicByteCode::JumpIfFalse(label)
+      | SymbolicByteCode::CheckHandler(label)
+      | SymbolicByteCode::PushHandler((_, label)) => Some((*label, slots)),
+      // a short circuit keeps its operand when it jumps
+      SymbolicByteCode::And(label) | SymbolicByteCode::Or(label) => Some((*label, slots + 1)),
+      _ => None,
+    };
+
+    if let Some((label, depth)) = target {
+      if let Some(slot) = label_slots.get_mut(label.val() as usize) {
+        slot.get_or_insert(depth);
+      }
+    }
+
+    if matches!(
+      instruction,
+      SymbolicByteCode::Jump(_)
+        | SymbolicByteCode::Loop(_)
+        | SymbolicByteCode::Return
+        | SymbolicByteCode::Raise
+        | SymbolicByteCode::ContinueUnwind
+    ) {
+      falls_through = false;
+    }
   }
 }
 
